@@ -12,6 +12,10 @@ hexadecimal words, row 0 first, bit j of word i = entry (i, j); a lane = one hex
   sm_genblock <nrows> <ncols> <cols> <limit> -> `ok Y1;...;Yk` | `limit Y1;...;Yk` | panic   (harness only: the blocks drawn
   by thread_rng are recorded by a hook), followed up on the Lean driver by
   sm_genblock_replay <nrows> <ncols> <cols> <Y1;...;Yk> -> `ok k` | `limit k` | panic.
+  sm_lanczos <nrows> <ncols> <cols> -> `<Y0> <mask/W/Y|...|Yfinal>` | `panic <Y0>` (harness only: a real kernel_lanczos run; Y0 = the
+  block returned by genblock, then per completed iteration of the main loop the hook's record (mask, W_i, Y after its update) and
+  the final Y), followed up on the Lean driver by  sm_lanczos_replay <nrows> <ncols> <cols> <Y0> -> `mask/W/Y|...|Yfinal` | panic
+  (initial block + every iteration of the loop recomputed by the model of lanczosStep from Y0).
 PROFILE CONVENTION: every op exists under two prefixes. `sm_X` = the driver answers with the model of the CHECKED profile
 (debug_assert active), `smr_X` = with the model of the RELEASE profile; the harness answers both spellings with the real
 code of the profile it was built in. Hence every generated input yields two cases, `Case("sm_X ..", profiles=["chk"])`
@@ -40,7 +44,7 @@ import random
 from vlib.pipeline import Case
 
 BASE_OPS = ("lz", "revlane", "identity", "symmetric", "transpose", "reverse", "mask", "submatrix", "rank", "rank_reverse",
-            "pinv", "inverse", "mul", "pipeline", "genblock", "genblock_replay")
+            "pinv", "inverse", "mul", "pipeline", "genblock", "genblock_replay", "lanczos", "lanczos_replay")
 OPS = tuple(p + o for p in ("sm_", "smr_") for o in BASE_OPS)
 LEAN = ["Ymq.Props.C14Small"]
 AUDIT = "Ymq.Audit.C14Small"
@@ -665,6 +669,7 @@ def cases(tier, rng, extended=False):
 
     # ---------------------------------------------------------------- genblock
     out += genblock_cases(rng, scale)
+    out += lanczos_cases(rng, scale)
 
     seen = set()
     res = []
@@ -729,12 +734,33 @@ def genblock_cases(rng, scale):
     return out
 
 
+def lanczos_cases(rng, scale):
+    """real kernel_lanczos runs whose every iteration is recomputed by the model (1 .. ~8 iterations: the purge of consumed
+    blocks needs 3 and more); matrices with rank((B^T B)^3) >= 64 only (genblock must return)"""
+    out = []
+    shapes = [(64, 66, 3), (65, 70, 5), (100, 110, 4), (130, 140, 6), (150, 150, 3), (200, 205, 5), (256, 260, 7),
+              (300, 310, 8), (400, 420, 10), (500, 505, 4)]
+    for rep in range(scale):
+        for nrows, ncols, w in shapes:
+            for _ in range(50):
+                cols = sparse_cols(rng, nrows, ncols, w)
+                if rank_a3(cols, nrows) >= N:
+                    break
+            else:
+                continue
+            if rep % 2:
+                for c in cols:
+                    rng.shuffle(c)
+            out.extend(both(f"lanczos {nrows} {ncols} {enc_sparse(cols)}", "lanczos-loop", k=False, timeout=60))
+    return out
+
+
 def corpus_case(line):
     """a corpus line: the profile follows from the prefix; genblock is answered by the harness only"""
     op = line.split(" ", 1)[0]
     prof = ["release"] if op.startswith("smr_") else ["chk"]
-    if base_op(op) == "genblock":
-        return Case(line, k=False, profiles=prof, timeout=30)
+    if base_op(op) in ("genblock", "lanczos"):
+        return Case(line, k=False, profiles=prof, timeout=60)
     return Case(line, profiles=prof)
 
 
@@ -755,6 +781,15 @@ def prefix_of(op):
 
 
 def followup(case, ans):
+    if base_op(case.op) == "lanczos":
+        a = case.args
+        parts = ans.split(" ")
+        if len(parts) != 2:
+            return None
+        head = f"{prefix_of(case.op)}lanczos_replay {a[0]} {a[1]} {a[2]}"
+        if parts[0] == "panic":
+            return (f"{head} {parts[1]}", "panic")
+        return (f"{head} {parts[0]}", parts[1])
     if base_op(case.op) != "genblock":
         return None
     a = case.args
@@ -872,14 +907,78 @@ def oracle_genblock(case, ans):
     return None
 
 
+def words_of(s):
+    return [] if s == "-" else [int(x, 16) for x in s.split(",")]
+
+
+LANCZOS_STATS = {"runs": 0, "iterations": 0, "pairs_checked": 0, "max_iterations": 0}
+
+
+def oracle_lanczos(case, ans):
+    """Montgomery's invariants on a REAL run, recomputed with plain sparse arithmetic: every recorded W_i is the previous
+    direction masked by a non-zero mask, the blocks are pairwise A-orthogonal (W_i^T A W_j = 0, i != j, A = B^T B), the Gram matrix
+    W_i^T A W_i is invertible on its mask, and after its update Y is A-orthogonal to every W_j seen so far"""
+    a = case.args
+    nrows, ncols = int(a[0]), int(a[1])
+    cols = dec_sparse(ncols, a[2])
+    if ans in ("hang", "abort", "?", ""):
+        return f"no value returned ({ans})"
+    parts = ans.split(" ")
+    if len(parts) != 2 or parts[0] == "panic":
+        return "kernel_lanczos panicked on a matrix with at least 64 rows and rank((B^T B)^3) >= 64"
+    items = parts[1].split("|")
+    yfin = words_of(items[-1])
+    if len(yfin) != ncols:
+        return "final Y has the wrong length"
+    ws, aws = [], []
+    for it in items[:-1]:
+        m, w, y = it.split("/")
+        m, w, y = int(m, 16), words_of(w), words_of(y)
+        if m == 0 or len(w) != ncols or len(y) != ncols:
+            return "malformed iteration record"
+        if any(x & ~m for x in w):
+            return "W_i has a vector outside its mask"
+        aw = sp_tmul(cols, sp_mul(cols, nrows, w))
+        for wj, awj in zip(ws, aws):
+            LANCZOS_STATS["pairs_checked"] += 1
+            if any(dot_blocks(wj, aw)) or any(dot_blocks(w, awj)):
+                return "W_i^T A W_j != 0 for two blocks of the run"
+        g = dot_blocks(w, aw)
+        if rank_of(g) != popcount(m) or any((g[i] != 0) != bool((m >> i) & 1) for i in range(N)):
+            return "W_i^T A W_i is not invertible on its mask"
+        ws.append(w)
+        aws.append(aw)
+        ay = sp_tmul(cols, sp_mul(cols, nrows, y))
+        for wj in ws:
+            if any(dot_blocks(wj, ay)):
+                return "Y is not A-orthogonal to the blocks selected so far"
+    LANCZOS_STATS["runs"] += 1
+    LANCZOS_STATS["iterations"] += len(ws)
+    LANCZOS_STATS["max_iterations"] = max(LANCZOS_STATS["max_iterations"], len(ws))
+    return None
+
+
+def dot_blocks(x, y):
+    """X^T Y (64 x 64): row a = xor of the words y[r] over the coordinates r whose x word has bit a"""
+    g = [0] * N
+    for xw, yw in zip(x, y):
+        while xw:
+            low = xw & -xw
+            g[low.bit_length() - 1] ^= yw
+            xw ^= low
+    return g
+
+
 def oracle(case, ans):
     """Specification, independent of the routines under test (plain integers, xor-basis elimination). See the RULE text
     and the comments of each branch; `panic` is a failure wherever the documented domain contains the input."""
     op = base_op(case.op)
     chk = prefix_of(case.op) == "sm_"
     a = case.args
-    if op == "genblock_replay":
+    if op in ("genblock_replay", "lanczos_replay"):
         return None                      # answered by the model only (the follow-up comparison is the check)
+    if op == "lanczos":
+        return oracle_lanczos(case, ans)
     if op not in BASE_OPS:
         return "unknown op"
     if ans in ("hang", "abort", "?", ""):
@@ -1034,7 +1133,9 @@ def klass(case, ans):
     panic = ans == "panic" or ans.startswith("panic ")
     bad = ans in ("hang", "abort", "?")
     outcome = "/" + ans if bad else ("/panic" if panic else ("/none" if ans == "none" else "/ok"))
-    if op in ("identity", "genblock_replay") or op not in BASE_OPS or ans == "?":
+    if op == "lanczos":
+        return f"{lab}/iterations={ans.count('|')}{'/panic' if panic else ''}" if not bad else lab + outcome
+    if op in ("identity", "genblock_replay", "lanczos_replay") or op not in BASE_OPS or ans == "?":
         return lab + outcome             # (`?` = a request line that the harness could not parse: corpus typo)
     if op in ("lz", "revlane"):
         return f"{lab}:{lane_class(parse_lane(a[0]))}{outcome}"
@@ -1078,7 +1179,7 @@ def nontrivial(case, ans):
         return parse_lane(a[0]) != 0
     if op == "identity":
         return True
-    if op in ("genblock", "genblock_replay"):
+    if op in ("genblock", "genblock_replay", "lanczos", "lanczos_replay"):
         return int(a[0]) >= N and sum(1 for c in a[2].split(";") if c != "-") >= 2
     if op not in BASE_OPS:
         return False
@@ -1091,7 +1192,8 @@ def finding_key(case, ans, profile):
 
 
 def extra_coverage():
-    return {"c14_small_families": dict(sorted(FAMILIES.items())), "c14_small_genblock": dict(GEN_STATS)}
+    return {"c14_small_families": dict(sorted(FAMILIES.items())), "c14_small_genblock": dict(GEN_STATS),
+            "c14_small_lanczos_loop": dict(LANCZOS_STATS)}
 
 
 # ======================================================================================
